@@ -1,11 +1,11 @@
 package rules
 
 import (
-	"regexp"
 	"fmt"
 	"go/constant"
 	"go/token"
 	"go/types"
+	"regexp"
 	"strings"
 
 	"golang.org/x/tools/go/ssa"
@@ -1556,7 +1556,6 @@ func sameInstrValue(a, b ssa.Value) bool {
 	}
 	return sameValue(a, b)
 }
-
 
 // isEndOfList: Index(len(p.instructions)).
 func isEndOfList(o *origin.O) bool {
